@@ -189,6 +189,8 @@ def build_member(member, cfg):
     """the object / dict handed to Hexital for a member {'kind','params','tf','form'}"""
     form = member.get("form", "obj")
     tf = member.get("tf")
+    if tf and member.get("tf_lower"):
+        tf = tf.lower()   # an equivalent spelling: validate_timeframe upper-cases it
     if form == "obj":
         return build_obj(member, tf=tf)
     if form == "settings":
@@ -672,6 +674,8 @@ def gen_c08(rng, size=50, allow_hx_tf=True, allow_ha_member_tf=True, wide=False)
             break
         m = gen_spec(rng)
         m["tf"] = rng.choice(pool) if member_tf and rng.random() < 0.7 else None
+        if m["tf"] and rng.random() < 0.2:
+            m["tf_lower"] = True
         if m["kind"] == "Amorph":
             m["form"] = rng.choice(["obj", "dict", "dict_callable", "dict_args", "settings"])
         else:
